@@ -40,19 +40,40 @@ MUTS = [
   "return lowpass(cutoff)(thub(sig, 1) ** 2)\n", "return lowpass(cutoff)(thub(sig, 1) ** 3)\n"),
  ("M18 accumulate.z sign", "lazy_itertools.py",
   'accumulate.strategy("z")(1 / (1 - z ** -1))', 'accumulate.strategy("z")(1 / (1 + z ** -1))'),
+ # round 3: the call layer (defaults, parameter order, spellings, aliases, input kinds, reuse of a callable)
+ ("R1 zcross default first_sign=1", "lazy_analysis.py", "def zcross(seq, hysteresis=0, first_sign=0):", "def zcross(seq, hysteresis=0, first_sign=1):"),
+ ("R2 envelope.abs default cutoff pi/256", "lazy_analysis.py", '@envelope.strategy("abs")\ndef envelope(sig, cutoff=pi/512):', '@envelope.strategy("abs")\ndef envelope(sig, cutoff=pi/256):'),
+ ("R3 clip parameter order swapped", "lazy_analysis.py", "def clip(sig, low=-1., high=1.):", "def clip(sig, high=1., low=-1.):"),
+ ("R4 amdf_filter default zero=1.", "lazy_analysis.py", "  def amdf_filter(sig, zero=0.):", "  def amdf_filter(sig, zero=1.):"),
+ ("R5 zcross first_sign is 0", "lazy_analysis.py", "  if first_sign == 0:", "  if first_sign is 0:"),
+ ("R6 maverage alias feedback dropped", "lazy_analysis.py", '@maverage.strategy("recursive", "feedback")', '@maverage.strategy("recursive")'),
+ ("R7 unwrap step default follows max_delta", "lazy_analysis.py", "def unwrap(sig, max_delta=pi, step=2*pi):", "def unwrap(sig, max_delta=pi, step=None):",
+  "  idata = iter(sig)\n  try:\n    d0 = next(idata)", "  if step is None:\n    step = 2 * max_delta\n  idata = iter(sig)\n  try:\n    d0 = next(idata)"),
+ ("R8 clip: falsy low treated as None", "lazy_analysis.py", "  if low is None:\n    if high is None:", "  if not low:\n    if high is None:"),
+ ("R9 unwrap next() on the input itself", "lazy_analysis.py", "  idata = iter(sig)\n  try:\n    d0 = next(idata)", "  idata = sig\n  try:\n    d0 = next(idata)"),
+ ("R10 maverage_filter default zero=0.5", "lazy_analysis.py", "  def maverage_filter(sig, zero=0.):", "  def maverage_filter(sig, zero=0.5):"),
+ ("R11 accumulate.func names swapped", "lazy_itertools.py", '@accumulate.strategy("func", "pure_python")', '@accumulate.strategy("pure_python", "func")'),
+ ("R12 clip default high=None", "lazy_analysis.py", "def clip(sig, low=-1., high=1.):", "def clip(sig, low=-1., high=None):"),
+ ("R13 maverage.deque buffer shared by all calls", "lazy_analysis.py",
+  "  size_inv = 1. / size\n\n  @tostream\n  def maverage_filter(sig, zero=0.):\n    data = deque((zero * size_inv for _ in xrange(size)), maxlen=size)\n",
+  "  size_inv = 1. / size\n  data = deque(maxlen=size)\n\n  @tostream\n  def maverage_filter(sig, zero=0.):\n    data.extend(zero * size_inv for _ in xrange(size))\n"),
+ ("R14 zcross through float()", "lazy_analysis.py", "    if el * last_sign < neg_hyst:", "    if float(el) * last_sign < neg_hyst:"),
 ]
 sel = sys.argv[1:]
 dst = "/tmp/mut_C20"
 res = []
-for name, f, old, new in MUTS:
+for m in MUTS:
+    name, f = m[0], m[1]
     if sel and not any(name.startswith(x + " ") for x in sel):
         continue
     shutil.rmtree(dst, ignore_errors=True)
     shutil.copytree("/repo", dst, ignore=shutil.ignore_patterns(".git"))
     p = os.path.join(dst, "audiolazy", f)
     s = open(p).read()
-    assert s.count(old) == 1, (name, s.count(old))
-    open(p, "w").write(s.replace(old, new))
+    for old, new in zip(m[2::2], m[3::2]):
+        assert s.count(old) == 1, (name, s.count(old))
+        s = s.replace(old, new)
+    open(p, "w").write(s)
     env = dict(os.environ, VERIF_REPO=dst)
     r = subprocess.run(["./check", "C20", "quick"], cwd=os.path.dirname(os.path.dirname(os.path.dirname(os.path.abspath(__file__)))), env=env, capture_output=True, text=True)
     lines = [l for l in r.stdout.splitlines() if l.startswith("VIOLATION")]
